@@ -36,7 +36,7 @@ ASSUMPTIONS = ['oracle: numpy.linalg.solve / lstsq inside correct_atomic_balance
                'to the model is the exact rational solution of the exact system, the arguments are the recorded ones',
                'float rounding is not modelled: values compared to 1e-9 relative; inputs are dyadic so branch decisions agree',
                'molecular weights are positive (Chemical replaces a missing MW by 1)']
-TRUSTED = ['remove_negligible_negative_values: the negatives are taken in index order (the dictionary order of the implementation '
+TRUSTED = ['remove_negligible_negative_values: the harness probes the tree once by behaviour and passes legacy = true (entry k deleted, unrepaired) or false (pending_fixes/C05_3) to the model; on the legacy path the negatives are taken in index order (the dictionary order of the implementation '
            'coincides with it for the generated feeds, which hold every chemical)',
            'formula array: only its non-zero rows (C, H, O) are given to the model (asserted at start-up)',
            'model coq/C05/Model.v is hand-written from thermosteam/reaction/_reaction.py, _parse.py, _xparse.py, '
@@ -409,6 +409,20 @@ MIXED_WT = {'phases': [], 'kind': 'system', 'rxns': [dict(r, rebase='wt') for r 
             'parts': [['parallel', [0]], ['single', [1]]], 'post_rebase': [1, 'mol'],
             'material': {'kind': 'stream', 'flows': [4.0, 0.0, 256.0, 0.0, 1.0, 8.0, 0.0, 0.0]}}
 
+_fl = {}
+def force_legacy():
+    """probe of the tree under test: does remove_negligible_negative_values delete entry k for the k-th negligible negative
+    (source without pending_fixes/C05_3)?  Selects the legacy flag of the model's remove_negligible and whether the witness of
+    the finding C05:force-negligible-mask is replayed."""
+    if 'v' not in _fl:
+        env()
+        from thermosteam import functional as fn
+        from thermosteam.base import SparseVector
+        a = SparseVector([float(1 << 60), 1.0, -1.0 / 1024])
+        fn.remove_negligible_negative_values(a)
+        _fl['v'] = bool(a[0] == 0.0)
+    return _fl['v']
+
 # ---------------- deepening round: force_reaction, conversion, nested systems
 HUGE = float(1 << 60)
 def _nonzero(flows):
@@ -551,8 +565,9 @@ WIT_FORCE = {'phases': [], 'kind': 'single', 'entry': 'force',
 CORPUS = [WIT_FORCE] + [other_exc_case(w, b, m) for w in ('infeasible', 'bwd', 'fwd') for b in ('mol', 'wt') for m in (False, True)] + [HIST, HIST_SERIES, MIXED, MIXED_WT, window_case(50), window_case(41), window_case(40), window_case(39), window_case(30), window_case(41, two=True),
           window_case(42, two=True), window_case(45, basis='wt'), window_case(41, basis='wt'),
           WIT_MULTI, SPARSE2, OTHER_MULTI]
-WITNESSES = [{'key': 'C05:phaseless-reaction-on-multistream', 'case': WIT_MULTI},
-             {'key': 'C05:force-negligible-mask', 'case': WIT_FORCE}]
+WITNESSES = [{'key': 'C05:phaseless-reaction-on-multistream', 'case': WIT_MULTI}]
+if force_legacy():      # repaired by pending_fixes/C05_3
+    WITNESSES.append({'key': 'C05:force-negligible-mask', 'case': WIT_FORCE})
 
 def gen_cases(rng, tier):
     n = 330 if tier == 'quick' else 6000
@@ -1016,7 +1031,7 @@ def coq_case(case, out):
         else: run = f'(fun t_ => nprocess t_ {v})'
         return f'(ncase_eqb {ctree(case, case["tree"])} {run} {cerr(out["ctor_err"])} {cerr(out["err"])} {d})'
     if entry == 'force':
-        return (f'(case_eqb {other} {cobj(case)} (fun o => force_call {call_mws_term(case)} o {cmat(case)}) '
+        return (f'(case_eqb {other} {cobj(case)} (fun o => force_call {cbool(force_legacy())} {call_mws_term(case)} o {cmat(case)}) '
                 f'{cerr(out["ctor_err"])} {cerr(out["err"])} {d})')
     if entry == 'conversion':
         cv = qlist([F(x) for x in out.get('conv', [])])
